@@ -19,7 +19,7 @@ def drop_rdrand(src):
     return re.sub(r"^#ifdef\s+CPUSUPPORT_X86_RDRAND\b.*?^#endif[^\n]*\n", "", src, flags=re.S | re.M)
 
 
-@extractor
+@extractor(soft=True)
 def entropy_consts(repo):
     msgs = []
     src = drop_rdrand(strip_c_comments(read(repo, "crypto/crypto_entropy.c")))
